@@ -337,9 +337,15 @@ def run_task(task):
                         tf.close()
                         tf.close()
                     elif api == 'open-read-close-read':
+                        live = []
                         if ch is not None and len(ch) > 0:
                             try:
                                 ch.read_data(0, 1)
+                                # iterators started BEFORE close and advanced once; continuing them after close must not deliver data
+                                for mk in (ch.data_chunks, tf.data_chunks):
+                                    it = mk()
+                                    next(it)
+                                    live.append(it)
                             except (PathAbort, Inconclusive):
                                 raise
                             except Exception as e:
@@ -352,6 +358,18 @@ def run_task(task):
                 except Exception as e:
                     ctx.fail('close-raised', api=api, exc=type(e).__name__)
                 must_be_closed('after close (%s)' % api)
+                if api == 'open-read-close-read' and raised is None:
+                    for it in live:
+                        try:
+                            nxt = next(it)
+                        except (PathAbort, Inconclusive):
+                            raise
+                        except StopIteration:
+                            ctx.note('read-after-close-raises')
+                        except Exception:
+                            ctx.note('read-after-close-raises')
+                        else:
+                            ctx.fail('read-after-close-returned', api=api, op='iterator started before close')
                 if ch is not None and len(ch) > 0:
                     for what, f in (('read_data', lambda: ch.read_data()), ('slice', lambda: ch[0:1]),
                                     ('iter', lambda: list(ch.data_chunks()))):      # (ch[i] may be served from the one-chunk cache)
@@ -517,12 +535,26 @@ def replay(art):
                 tf.close()
                 tf.close()
             elif api == 'open-read-close-read':
+                live = []
                 if ch is not None and len(ch) > 0:
                     try:
                         ch.read_data(0, 1)
+                        for mk in (ch.data_chunks, tf.data_chunks):
+                            it = mk()
+                            next(it)
+                            live.append(it)
+                    except Exception:
+                        live = None
+                tf.close()
+                for it in (live or []):
+                    try:
+                        next(it)
+                    except StopIteration:
+                        pass
                     except Exception:
                         pass
-                tf.close()
+                    else:
+                        return dict(sig=signature(dict(task=task, what='read-after-close-returned', api=api)), op='iterator started before close')
             else:
                 tf.close()
         except Exception as e:
